@@ -4,7 +4,8 @@
 (*  op = "map": vc[m+1] = outcome of the real validate_constraints(..., n_const=n, order=m)       *)
 (*              (raised / kind / par), cp = outcome of constrained_parafac (1 outer, 1 inner      *)
 (*              iteration) on a tiny signed tensor.                                               *)
-(*  op = "run": constrained_parafac on generated data with the run parameters e.run; the          *)
+(*  op = "run": constrained_parafac (function or ConstrainedCP wrapper, e.run.via) on generated    *)
+(*              data with the run parameters e.run, including fixed_modes = e.run.fixed; the       *)
 (*              harness logs measurements of every returned factor (see Constraints.tla).         *)
 (* The per-mode (kind, parameter) that must hold is computed HERE, by Assign, from the user's     *)
 (* specification -- never taken from the implementation's tables.                                 *)
@@ -58,7 +59,8 @@ RunVerdict(e) ==
          (IF e.exc \in NumericFailure THEN <<"ok", -1>> ELSE <<"DecompRaised", -1>>)
     ELSE IF ~FactorShapeOK(e) THEN <<"Shape", -1>>
     ELSE LET A    == Assign(n, items)
-             obl  == {m \in Requested(n, items) : A[m].kind \in HardKinds}
+             \* free requested modes with a hard kind; a fixed mode is returned as supplied (C14)
+             obl  == {m \in Requested(n, items) \ SeqRange(e.run.fixed) : A[m].kind \in HardKinds}
              nomeas == {m \in obl : ~MeasOK(A[m].kind, e.factors[m + 1])}
              bad  == {m \in obl \ nomeas : ~Feasible(A[m].kind, A[m].par, e.factors[m + 1])} IN
          IF nomeas # {} THEN <<"Finite", LeastOf(nomeas)>>
